@@ -1,10 +1,10 @@
 (* FPassFacts.v — one evaluation pass: the {equations} block of the Fortran module (FSem.f_pass) computes what the generated
-   Python _evaluate (FSem.py_pass) computes, on every literal-free program (the expression subset common to both
-   back-ends), for every number type and arithmetic in which negation commutes with * and /.  Then the end-to-end
+   Python _evaluate (FSem.py_pass) computes, on every program of benign expressions (FBenignFacts.benign: the expression
+   subset common to both back-ends), for every number type and arithmetic in which negation commutes with * and /.  Then the end-to-end
    statements: FortranEngine.solve_t / _evaluate over the compiled module = the pure-Python class. *)
 From Coq Require Import ZArith List Bool Lia ZifyBool.
 Import ListNotations.
-Require Import PyBase Solver SolverFacts FSem FSemFacts FSolve FSolveFacts FSolveSim FSolveRun.
+Require Import PyBase Solver SolverFacts FSem FSemFacts FBenignFacts FSolve FSolveFacts FSolveSim FSolveRun.
 Open Scope Z_scope.
 
 Section Pass.
@@ -45,7 +45,7 @@ Section Pass.
 
   (* ---- a program inside the model's declared structure: m variables, every lag within `lg`, every lead within `ld` ---- *)
   Definition eqn_scoped (m : nat) (lg ld : Z) (q : eqn) : Prop :=
-    (fst q < m)%nat /\ literal_free (snd q) = true /\
+    (fst q < m)%nat /\ benign num (snd q) /\
     forall j k, In (j, k) (reads (snd q)) -> (j < m)%nat /\ - lg <= k <= ld.
   Definition prog_scoped (m : nat) (lg ld : Z) (prog : list eqn) : Prop := Forall (eqn_scoped m lg ld) prog.
 
@@ -101,7 +101,7 @@ Section Pass.
     cbn [pass_ok] in Hok. destruct Hok as (Hmm & Hq & Hok).
     assert (Hreads : forall j k, In (j, k) (reads e) -> rd_py v n t j k = Some (rd_f v (Z.of_nat p + 1) j k)).
     { intros j k Hin. destruct (Hrd j k Hin) as [Hj Hk]. apply (rd_agree n m); auto. lia. }
-    destruct (literal_free_agree num add sub mul div neg absf ltb is_nan is_inf of_int fexp flog fpow round4 exp4 log4 pow4 zero one
+    destruct (benign_agree num add sub mul div neg absf ltb is_nan is_inf of_int fexp flog fpow round4 exp4 log4 pow4 zero one
                 neg_mul neg_div catch (rd_py v n t) (rd_f v (Z.of_nat p + 1)) e Hlf Hreads Hmm Hq) as [Pe Fe].
     rewrite Pe, Fe, Hp. cbn [FSem.tof FSem.to8].
     rewrite (fwrite_in num n m v i p _ Hs Hi (py_pos_lt _ _ _ Hp)).
